@@ -18,6 +18,8 @@ type c07group struct {
 	Rows    bool   `json:"rows"`
 	Num     int    `json:"num"`
 	Offset  int    `json:"offset"`
+	Array   bool   `json:"array_formula,omitempty"`
+	RefSheet string `json:"referenced_sheet,omitempty"` // "" = the formulas refer to their own sheet
 	c1, r1, c2, r2 int // rectangle of the group
 	rc1, rr1, rc2, rr2 int // rectangle of every cell a group member refers to
 }
@@ -28,6 +30,12 @@ func (c *Ctx) c07Shared() {
 		{Ref: "K3:K6", Master: "K3", Formula: "A3*2", c1: 11, r1: 3, c2: 11, r2: 6, rc1: 1, rr1: 3, rc2: 1, rr2: 6},
 		{Ref: "K3:L5", Master: "K3", Formula: "SUM(A3:B4)", c1: 11, r1: 3, c2: 12, r2: 5, rc1: 1, rr1: 3, rc2: 3, rr2: 6},
 		{Ref: "K7:K7", Master: "K7", Formula: "B7-1", c1: 11, r1: 7, c2: 11, r2: 7, rc1: 2, rr1: 7, rc2: 2, rr2: 7},
+		// the same with references to another sheet, and multi-cell array formulas (the cells other than the first
+		// hold no formula element of their own)
+		{Ref: "K3:N3", Master: "K3", Formula: "'My Sheet'!A3+'My Sheet'!B3", RefSheet: "My Sheet", c1: 11, r1: 3, c2: 14, r2: 3, rc1: 1, rr1: 3, rc2: 5, rr2: 3},
+		{Ref: "K3:K5", Master: "K3", Formula: "A3:A5*2", Array: true, c1: 11, r1: 3, c2: 11, r2: 5, rc1: 1, rr1: 3, rc2: 1, rr2: 5},
+		{Ref: "K3:K5", Master: "K3", Formula: "Other!A3:A5+Other!B3:B5", Array: true, RefSheet: "Other", c1: 11, r1: 3, c2: 11, r2: 5, rc1: 1, rr1: 3, rc2: 2, rr2: 5},
+		{Ref: "K3:K5", Master: "K3", Formula: "Sheet1!A3:A5*Sheet1!B3:B5", Array: true, RefSheet: "Sheet1", c1: 11, r1: 3, c2: 11, r2: 5, rc1: 1, rr1: 3, rc2: 2, rr2: 5},
 	}
 	shared := "shared"
 	for _, shp := range shapes {
@@ -38,14 +46,21 @@ func (c *Ctx) c07Shared() {
 						for num := 1; num <= 14; num++ {
 							g := shp
 							g.Holder, g.Edited, g.Rows, g.Num, g.Offset = holder, edited, rows, num, offset
-							if holder == edited && offset < 0 {
+							refSheet := g.RefSheet
+							if refSheet == "" {
+								refSheet = holder
+							}
+							if offset < 0 {
 								// a removed line through the group or through a referenced cell legitimately changes values
-								if rows && ((g.r1 <= num && num <= g.r2) || (g.rr1 <= num && num <= g.rr2)) {
+								if holder == edited && ((rows && g.r1 <= num && num <= g.r2) || (!rows && g.c1 <= num && num <= g.c2)) {
 									continue
 								}
-								if !rows && ((g.c1 <= num && num <= g.c2) || (g.rc1 <= num && num <= g.rc2)) {
+								if refSheet == edited && ((rows && g.rr1 <= num && num <= g.rr2) || (!rows && g.rc1 <= num && num <= g.rc2)) {
 									continue
 								}
+							}
+							if g.Array && holder == edited && ((rows && g.r1 < num && num <= g.r2) || (!rows && g.c1 < num && num <= g.c2)) {
+								continue // a line inserted through an array range splits it: not judged
 							}
 							c.guard("C07_no_panic", g, func() { c.c07SharedCase(g, shared) })
 							if c.Failed() {
@@ -63,7 +78,11 @@ func (c *Ctx) c07SharedCase(g c07group, shared string) {
 	f := c07Workbook()
 	defer f.Close()
 	ref := g.Ref
-	if err := f.SetCellFormula(g.Holder, g.Master, g.Formula, excelize.FormulaOpts{Type: &shared, Ref: &ref}); err != nil {
+	ftype := shared
+	if g.Array {
+		ftype = excelize.STCellFormulaTypeArray
+	}
+	if err := f.SetCellFormula(g.Holder, g.Master, g.Formula, excelize.FormulaOpts{Type: &ftype, Ref: &ref}); err != nil {
 		return
 	}
 	type obs struct{ formula, value string }
@@ -118,7 +137,7 @@ func (c *Ctx) c07SharedCase(g c07group, shared string) {
 			c.Fail("oracle", "C07_eval", g, fmt.Sprintf("cell %s of the shared formula group %s (formula %q, now at %s with formula %q) evaluated to %q before the edit and %q after it", was, g.Ref, b.formula, n, fm, b.value, v), "")
 			return
 		}
-		if g.Holder != g.Edited && fm != b.formula {
+		if g.Holder != g.Edited && g.RefSheet != g.Edited && fm != b.formula {
 			c.Fail("oracle", "C07_other_sheet", g, fmt.Sprintf("cell %s of the shared formula group %s on %s had formula %q, after an edit of %s (which it does not refer to) it has %q", was, g.Ref, g.Holder, b.formula, g.Edited, fm), "")
 			return
 		}
